@@ -22,6 +22,9 @@ Next == /\ l <= Len(Trace) /\ l' = l + 1
               /\ Ev.err = "nil" /\ Ev.len = Ev.n
               /\ \A j \in 1 .. Len(Ev.slots) : SlotOK(Ev.slots[j])
            \/ Ev.op = "Readers"
+           \* ManyPatterns: one storage asked for hundreds of distinct ListKeys patterns over an unchanging key set, the early
+           \* ones again at the end: ListKeys returns exactly the present keys that match - `wrong` counts the answers that differ
+           \/ Ev.op = "ManyPatterns" /\ Ev.wrong = 0
            \/ Ev.op = "Fresh" /\ Ev.dups = 0 /\ Ev.errs = 0
 Spec == Init /\ [][Next]_l
 Accepted == AcceptByDiameter
